@@ -68,6 +68,23 @@ SCENARIOS = {
         ["write", "a.txt", "2\n"], ["git", "add", "-A"], ["git", "commit", "-q", "-m", "fix the thing"],
         ["stg", "uncommit", "-n", "2"], ["stg", "series", "-a"], ["stg", "commit", "-a"],
         ["stg", "uncommit", "--to", "HEAD~2"]],
+    "worktree-merge-then-more": [
+        # a push that only the work-tree merge can do (the file was renamed underneath), followed
+        # by further pushes in the SAME command; also through float / sink / rebase
+        ["stg", "new", "-m", "addf", "addf"], ["write", "f.txt", "1\n2\n3\n4\n5\n6\n7\n8\n"], ["stg", "refresh"],
+        ["stg", "commit", "-a"],
+        ["stg", "new", "-m", "edit", "edit"], ["write", "f.txt", "1\n2\n3\n4\n5\n6\n7\nEIGHT\n"], ["stg", "refresh"],
+        ["stg", "new", "-m", "addh", "addh"], ["write", "h.txt", "h\n"], ["stg", "refresh"],
+        ["stg", "new", "-m", "addi", "addi"], ["write", "i.txt", "i\n"], ["stg", "refresh"],
+        ["stg", "pop", "-a"], ["stg", "new", "-m", "ren", "ren"], ["git", "mv", "f.txt", "g.txt"], ["stg", "refresh"],
+        ["stg", "push", "edit", "addh"], ["stg", "series", "-a"], ["stg", "push"], ["stg", "pop", "-a"],
+        ["stg", "push", "ren"], ["stg", "push", "-a"], ["stg", "float", "ren"], ["stg", "sink", "ren"],
+        ["stg", "undo"], ["stg", "redo"]],
+    "many-patches-log-clear": (
+        [["stg", "new", "-m", "patch %d" % i, "q%02d" % i] for i in range(1, 23)]
+        + [["stg", "pop", "-a"], ["stg", "hide", "q21", "q22"], ["stg", "log", "--clear"], ["stg", "series", "-a"],
+           ["stg", "delete", "q20"], ["stg", "undo"], ["stg", "push", "-n", "18"], ["stg", "log", "--clear"],
+           ["stg", "pop", "-a"], ["stg", "undo"]]),
     "edit-unapplied-and-hidden": [
         ["stg", "new", "-m", "one", "p1"], ["write", "a.txt", "1\n"], ["stg", "refresh"],
         ["stg", "new", "-m", "two", "p2"], ["write", "b.txt", "1\n"], ["stg", "refresh"],
@@ -143,7 +160,7 @@ def run_scenarios(stg, oracle_names, names=None, tag="ex"):
                     if "panicked at" in err or ex == 101:
                         ex = "panic"
                     snap = real.snapshot()
-                    cdesc = {"c": argv[0], "flags": [], "argv": argv}
+                    cdesc = {"c": "logclear" if argv[:2] == ["log", "--clear"] else argv[0], "flags": [], "argv": argv}
                     for orc in oracles:
                         f = orc(real, snap, None, i, cdesc, ex, err)
                         if f:
